@@ -19,6 +19,8 @@ import (
 	"github.com/yandex/pandora/zverif/hutil"
 	"google.golang.org/grpc/codes"
 	"google.golang.org/grpc/status"
+	"go.uber.org/zap"
+	"go.uber.org/zap/zapcore"
 )
 
 // documented table of docs/eng/grpc-generator.md (transcribed)
@@ -136,10 +138,12 @@ type shot struct {
 	Path     string `json:"path"`
 	Debug    bool   `json:"debug,omitempty"`
 	Trace    bool   `json:"trace,omitempty"`
+	AnswLog  string `json:"answlog,omitempty"` // answer log filter: all | warning | error ("" = off)
+	Post     bool   `json:"post,omitempty"`    // the request carries a body
 }
 
 func (s shot) Name() string {
-	return fmt.Sprintf("status=%d fail=%s bodyfail=%v tag=%q auto=%v notagonly=%v elems=%d path=%s debug=%v trace=%v", s.Status, s.Fail, s.BodyFail, s.AmmoTag, s.Auto, s.NoTag, s.Elems, s.Path, s.Debug, s.Trace)
+	return fmt.Sprintf("status=%d fail=%s bodyfail=%v tag=%q auto=%v notagonly=%v elems=%d path=%s debug=%v trace=%v", s.Status, s.Fail, s.BodyFail, s.AmmoTag, s.Auto, s.NoTag, s.Elems, s.Path, s.Debug, s.Trace) + map[bool]string{true: " answlog=" + s.AnswLog}[s.AnswLog != ""] + map[bool]string{true: " post"}[s.Post]
 }
 
 func runShot(s shot) (verr error) {
@@ -168,13 +172,22 @@ func runShot(s shot) (verr error) {
 		}
 		return &http.Response{StatusCode: s.Status, Status: fmt.Sprintf("%d x", s.Status), Proto: "HTTP/1.1", ProtoMajor: 1, ProtoMinor: 1, Header: http.Header{}, Body: body, Request: req}, nil
 	}}
-	g := phttp.NewBaseGun(func(phttp.ClientConfig, string) phttp.Client { return cl }, conf, nil)
+	answLog := zap.NewNop()
+	if s.AnswLog != "" {
+		conf.AnswLog.Enabled = true
+		conf.AnswLog.Filter = s.AnswLog
+		answLog = zap.New(zapcore.NewCore(zapcore.NewConsoleEncoder(zap.NewDevelopmentEncoderConfig()), zapcore.AddSync(io.Discard), zapcore.DebugLevel))
+	}
+	g := phttp.NewBaseGun(func(phttp.ClientConfig, string) phttp.Client { return cl }, conf, answLog)
 	agg := &recAgg{}
 	if err := g.Bind(agg, gunDeps(0)); err != nil {
 		return fmt.Errorf("HARNESS: bind: %v", err)
 	}
 	g.DebugLog = s.Debug
 	req, _ := http.NewRequest("GET", s.Path, nil)
+	if s.Post {
+		req, _ = http.NewRequest("POST", s.Path, strings.NewReader("request body"))
+	}
 	g.Shoot(httpammo.NewGunAmmo(req, s.AmmoTag, 42))
 	if len(agg.samples) != 1 {
 		return fmt.Errorf("SAMPLES: %d samples reported for one request", len(agg.samples))
@@ -233,6 +246,22 @@ func c10shots(thorough bool) []shot {
 	for _, fk := range failKinds {
 		for _, dbg := range []bool{false, true} {
 			out = append(out, shot{Tier: "fail", Fail: fk.name, AmmoTag: "t", Path: "/a", Debug: dbg, Trace: dbg})
+		}
+		for _, flt := range []string{"all", "warning", "error"} {
+			out = append(out, shot{Tier: "fail", Fail: fk.name, AmmoTag: "t", Path: "/a", AnswLog: flt, Post: flt == "all"})
+		}
+	}
+	// the answer log (every filter) around each filter boundary: a logged answer is still one sample with the
+	// received status, also when the body breaks off while or after it was dumped into the log
+	for _, st := range []int{100, 200, 204, 301, 399, 400, 404, 499, 500, 503, 599} {
+		for _, flt := range []string{"all", "warning", "error"} {
+			for _, post := range []bool{false, true} {
+				for _, bf := range []bool{false, true} {
+					for _, dbg := range []bool{false, true} {
+						out = append(out, shot{Tier: "answlog", Status: st, BodyFail: bf, AmmoTag: "t", Path: "/a", AnswLog: flt, Post: post, Debug: dbg, Trace: dbg && bf})
+					}
+				}
+			}
 		}
 	}
 	for _, tag := range []string{"", "t", "two words"} {
